@@ -78,6 +78,7 @@ CHECKS["C05"] = dict(engine="system", level=("model_checking", "Sched.tla is a t
     note="the design model is exhaustive only for the small configurations listed; real runs are sampled; open known findings: three ways a job is started before a lower store is complete (snapshot gap in the cache, first segment of a later-starting stage, indirect lower stage judged through the direct parent only), all currently masked by the tier2 load retry or ending in D7",
     technique="TLA+ transcription of the scheduler (Sched.tla) model-checked by TLC in a closed environment (MCSched.tla) + trace validation of every real Scheduler.Update (TraceSched.tla)")
 HOOK_COMMITS.append("d1d8afab")
+HOOK_COMMITS.append("d2fc1936")
 
 NOT_YET = "machinery for this property is not built yet in this revision (work in progress; see DESIGN.md section 9 for the plan)"
 
